@@ -106,7 +106,8 @@ def check(ctx):
                  if l != "CHILD-DIED"]
         header = ("From Coq Require Import String.\nFrom SLX Require Import Base gen.ValueSig SymVal VM VmCases SimCases.\n"
                   "Open Scope string_scope. Open Scope N_scope.\n")
-        bad = vlib.run_cases(ctx, "vm-bounds", header, terms, per_shard=min(120, max(1, len(terms) // 32 + 1)), fn="check_c03g")
+        bad = vlib.run_cases(ctx, "vm-bounds", header, terms, per_shard=min(120 if ctx.quick else 40, max(1, len(terms) // 32 + 1)), fn="check_c03g",
+                             timeout=900 if ctx.quick else 3000)
         disagreements = []
         for idx, code in bad:
             c, cfg = keys[idx]
